@@ -135,3 +135,12 @@ def quat_from_ypr(yaw, pitch=0.0, roll=0.0):
 def yaw_of_quat(q):
     w, x, y, z = q
     return math.atan2(2 * (w * z + x * y), 1 - 2 * (y * y + z * z))
+
+
+def pose_matrix(x, y, z, yaw, pitch=0.0, roll=0.0):
+    """4x4 matrix of the pose R = Rz(yaw) Ry(pitch) Rx(roll), t = (x, y, z) as nested lists (numpy-free reference)."""
+    cy, sy, cp, sp, cr, sr = math.cos(yaw), math.sin(yaw), math.cos(pitch), math.sin(pitch), math.cos(roll), math.sin(roll)
+    R = [[cy * cp, cy * sp * sr - sy * cr, cy * sp * cr + sy * sr],
+         [sy * cp, sy * sp * sr + cy * cr, sy * sp * cr - cy * sr],
+         [-sp, cp * sr, cp * cr]]
+    return [R[0] + [x], R[1] + [y], R[2] + [z], [0.0, 0.0, 0.0, 1.0]]
